@@ -563,6 +563,38 @@ int main(int argc, char **argv) {
         }
     }
 
+    // ---- 0b. boundary sweep around the 16-bit limit: DATA sizes with attributes-before-trailer in [65480, 65560], every size,
+    //          x {no key, key} x {fingerprint off, on}: encode() either refuses (empty) or its output decodes back to the same
+    //          message; in the window 65504..65535 it is the 24-byte MESSAGE-INTEGRITY / 8-byte FINGERPRINT trailer alone that
+    //          pushes the message over the limit (seeded change C14_d1 moved the size check in front of the trailer)
+    {
+        corr("reset", "ok");
+        const QByteArray sweepKey("keyxx");
+        for (int n = 65476; n <= 65556; n++) for (int kk = 0; kk < 2; kk++) for (int fp = 0; fp < 2; fp++) {
+            const QByteArray key = kk ? sweepKey : QByteArray();
+            const int fill = 33 + (n % 90);
+            QXmppStunMessage big; big.setData(QByteArray(n, char(fill)));
+            printf("I boundary sweep: setData(%d bytes) key=%s fp=%d\n", n, hxArg(key).c_str(), fp); fflush(stdout);
+            const QByteArray e = big.encode(key, fp != 0);
+            const std::string args = std::to_string(n) + " " + std::to_string(fill) + " " + hxArg(key) + " " + std::to_string(fp);
+            corr("encsz " + args, std::to_string(e.size()) + " " + std::to_string(crcBitwise(e)));
+            stat("size-sweep");
+            const int total = 4 + n + (4 - n % 4) % 4 + (kk ? 24 : 0) + (fp ? 8 : 0);
+            std::string obs;
+            if (e.isEmpty()) {
+                obs = "refused"; stat("size-sweep-refused");
+                if (total > 0xffff) oraclePass()++; else ofail("C14:oversized-not-decodable", "setData(" + std::to_string(n) + ") key=" + hxArg(key) + " fp=" + std::to_string(fp) + ": encode() refused a message of " + std::to_string(total) + " attribute bytes that fits");
+            } else {
+                QXmppStunMessage d; const bool ok = d.decode(e, key);
+                const bool same = ok && d.data() == big.data() && showMsg(d, false) == showMsg(big, false);
+                obs = !ok ? "fail" : same ? "ok" : "other";
+                if (same) oraclePass()++;
+                else ofail("C14:oversized-not-decodable", "setData(" + std::to_string(n) + " bytes) key=" + hxArg(key) + " fp=" + std::to_string(fp) + ": encode() returned " + std::to_string(e.size()) + " bytes with header length field " + std::to_string(be16(e, 2)) + " (attributes + trailer = " + std::to_string(total) + " bytes); decode = " + (ok ? "different message" : "false"));
+            }
+            corr("decsz " + args, obs);
+        }
+    }
+
     // ---- 1. HMAC and CRC helpers directly: every key length 0..300
     {
         corr("reset", "ok");
